@@ -242,7 +242,8 @@ def core(ctx, optsets_needed, fields, cross=None, note='', sweep='core', build_m
                     {'grammar': d['text'], 'opts': d['opts'], 'diff': d['diff']})
     for d in sw['front_problems']:
         if d['opts'] in want:
-            ctx.add('model', 'T-emit/front', 'real front end/generator failed on a generated well-formed grammar: %s' % json.dumps(d['resp'])[:300],
+            # for C08 this IS the violation (an accepted grammar for which no valid Go comes out), with the grammar as the failing input
+            ctx.add('spec' if build_matters else 'model', 'T-emit/front', 'real front end/generator failed on a generated well-formed grammar: %s' % json.dumps(d['resp'])[:300],
                     {'grammar': d['text'], 'opts': d['opts'], 'resp': d['resp']})
     nb = sum(1 for v in sw['vet_bad'].values() if v['opts'] in want) + sum(1 for d in sw.get('nilcase', []) if d['opts'] in want)
     ctx.coverage['emitted_files_that_do_not_compile (decided by C08)'] = ctx.coverage.get('emitted_files_that_do_not_compile (decided by C08)', 0) + nb
@@ -527,6 +528,8 @@ def c08_extra(ctx):
     add('import_plain', 'package g\n\nimport "strings"\n\ntype P Peg {\n Trace string\n STrace string\n}\n\nR0 <- <\'a\'+> { p.Trace += strings.ToUpper(text) }\n')
     add('import_alias', 'package g\n\nimport str "strings"\n\ntype P Peg {\n Trace string\n STrace string\n}\n\nR0 <- <\'a\'+> { p.Trace += str.ToUpper(text) }\n')
     add('import_group', 'package g\n\nimport (\n"strings"\n"unicode"\n)\n\ntype P Peg {\n Trace string\n STrace string\n}\n\nR0 <- <.> { if unicode.IsLetter([]rune(text)[0]) { p.Trace += strings.ToUpper(text) } }\n')
+    # a reversed range matches nothing; with -switch the first-character analysis used to insert it into the interval set
+    add('reversed_range', hdr + "R0 <- ([z-a] 'q' / 'd' 'x' / 'e' 'y') !.\n")
     add('import_alias_runtime', 'package g\n\nimport sc "strconv"\n\ntype P Peg {\n Trace string\n STrace string\n}\n\nR0 <- <.> { p.Trace += sc.Itoa(len(text)) }\n')
     add('import_dup_runtime', 'package g\n\nimport "fmt"\n\ntype P Peg {\n Trace string\n STrace string\n}\n\nR0 <- <.> { p.Trace += fmt.Sprint(text) }\n')
     add('header_comments', '# a header comment\n// another one\n\n\npackage g\n\ntype P Peg {\n Trace string\n STrace string\n}\n\nR0 <- \'a\' R1 # trailing\n// between\nR1 <- \'b\'\n')
